@@ -143,6 +143,7 @@ func c07(c *Ctx) {
 	r := c.R
 	r.Rule("C07.panic-sites", "every index, slice, make, integer division, slice-to-array conversion, unchecked type assertion and explicit panic in the network-input scope is discharged on every path: 0 <= index < len, 0 <= lo <= hi <= len/cap, size >= 0, divisor != 0, from branch literals, counting-loop invariants (counter >= start, counter <= tested bound) and the listed library facts; undecided sites fail unless a reviewed table entry with the same construct exists")
 	r.Rule("C07.progress", "every loop in scope has a progress argument: a counter that increases towards the tested bound, a range loop, a string cursor that strictly shrinks on every back edge (through suffix-preserving helpers), or a successful transport read on every back edge")
+	r.Rule("C07.nil-result", "functions in scope that return (value, error) never return a nil value with a nil error: the handshake code dereferences what a dialer, a proxy dialer or a parser handed back after testing only the error")
 	r.Rule("C07.alloc", "allocation sizes in scope are constants or linear in the length of data already received (same def-use rule as C06.no-claimed-alloc for frame lengths)")
 	r.Assume("io.Reader.Read / bufio.Reader.Read return 0 <= n <= len(p); bufio.Reader.Peek(n) returns at most n bytes and exactly n when err == nil; Buffered() >= 0")
 	r.Assume("strings.LastIndex(s, sep) is in [-1, len(s)-len(sep)]; strings.HasPrefix(s, p) implies len(s) >= len(p); strings.SplitN(s, sep, n>0) returns between 1 and n elements")
@@ -177,6 +178,7 @@ func c07(c *Ctx) {
 	st.explicitPanics(scope)
 	st.progress(scope)
 	st.alloc(scope)
+	st.nilOrError(scope)
 	if len(scope) < 35 {
 		r.Fail("C07.panic-sites", "", "scope", c.fn("(*Conn).advanceFrame").Pos(), fmt.Sprintf("only %d functions in the network-input scope", len(scope)))
 	}
